@@ -241,12 +241,13 @@ fn run_enums(out: &mut Out, rng: &mut Prng, n: usize) {
     }
 }
 
-/// unknown cases: a variant of a catalogue type the enums do not know, between two other values of a body
-fn unknown_case<T: Cat>(out: &mut Out, rng: &mut Prng) {
+/// unknown cases: a variant of a catalogue type the enums do not know, between two other values of a body.
+/// Only this small part is generic (instantiated once per catalogue type); the probing is not.
+fn unknown_prepare<T: Cat>(rng: &mut Prng) -> Option<(String, ByteOrder, usize, MarshalledMessage)> {
     let ty = T::ty();
     let sig = ty.sig();
     if ["u", "s", "(yt)", "at", "(st)", "(yaq)"].contains(&sig.as_str()) {
-        return;
+        return None;
     }
     let v = T::gen(rng, 2);
     let bo = *rng.pick(&ORDERS);
@@ -256,10 +257,18 @@ fn unknown_case<T: Cat>(out: &mut Out, rng: &mut Prng) {
         msg.body.push_param(i as u8).unwrap();
     }
     if msg.body.push_variant(&v).is_err() {
-        return;
+        return None;
     }
     msg.body.push_param(0x4Du8).unwrap();
     msg.body.push_param(0xCAFEu16).unwrap();
+    Some((sig, bo, lead, msg))
+}
+
+fn unknown_case(out: &mut Out, prepared: Option<(String, ByteOrder, usize, MarshalledMessage)>) {
+    let (sig, bo, lead, msg) = match prepared {
+        Some(x) => x,
+        None => return,
+    };
     let buf = msg.get_buf().to_vec();
     // byte offset where the variant starts = lead (u8 parameters, variant alignment 1)
     macro_rules! probe {
@@ -314,7 +323,10 @@ fn run_unknown(out: &mut Out, rng: &mut Prng, rounds: usize) {
     for _ in 0..rounds {
         macro_rules! m {
             ($t:ty) => {
-                unknown_case::<$t>(out, rng)
+                {
+                    let p = unknown_prepare::<$t>(rng);
+                    unknown_case(out, p)
+                }
             };
         }
         vcore::for_each_catalogue_type!(m);
@@ -351,12 +363,16 @@ fn run_has_sig(out: &mut Out, rng: &mut Prng, per_type: usize) {
             out.case(&req, &obs, true);
         }
     };
+    let mut table: Vec<(String, fn(&str) -> bool)> = Vec::new();
     macro_rules! hs {
         ($t:ty) => {
-            one(out, <$t as Cat>::ty().sig(), &|s| <$t as Signature>::has_sig(s), false, rng)
+            table.push((<$t as Cat>::ty().sig(), <$t as Signature>::has_sig as fn(&str) -> bool))
         };
     }
     vcore::for_each_catalogue_type!(hs);
+    for (ty_sig, f) in table {
+        one(out, ty_sig, &|s| f(s), false, rng);
+    }
     // derived structs against every signature of the pool
     one(out, "(yt)".into(), &|s| S1::has_sig(s), true, rng);
     one(out, "(sat(yu))".into(), &|s| S2::has_sig(s), true, rng);
